@@ -1,4 +1,5 @@
 import PwVerif.Model.Macro
+import PwVerif.Model.Preview
 import PwVerif.Model.Proto
 open PwVerif PwVerif.Macro PwVerif.Proto
 
@@ -141,6 +142,46 @@ partial def showIface : Node → String
     let kids := ",".intercalate (body.map showIface)
     s!"M(in=[{ins}];out=[{outs}];kids=[{kids}])"
 
+def pOptNat : P (Option Nat)
+  | "-" :: ws => some (none, ws)
+  | w :: ws => w.toNat?.map fun n => (some n, ws)
+  | [] => none
+
+def pOptLabels : P (Option (List Nat))
+  | "-" :: ws => some (none, ws)
+  | ws => do
+    let (l, ws) ← pCounted pNat ws
+    some (some l, ws)
+
+def pCls : P (Option Nat × Option Nat × Option (List Nat)) := fun ws => do
+  let (p, ws) ← pOptNat ws
+  let (f, ws) ← pOptNat ws
+  let (d, ws) ← pOptLabels ws
+  some ((p, f, d), ws)
+
+def pFn : P (Nat × List Nat) := fun ws => do
+  let (f, ws) ← pNat ws
+  let (l, ws) ← pCounted pNat ws
+  some ((f, l), ws)
+
+def pPreview (ws : List String) : Option (Nat × Preview.Classes × Nat × List Nat) := do
+  let (variant, ws) ← pNat ws
+  if variant > 1 then none
+  let (cls, ws) ← pCounted pCls ws
+  let (fns, ws) ← pCounted pFn ws
+  let (reqs, ws) ← pCounted pNat ws
+  if !ws.isEmpty then none
+  -- a parent must be an earlier class
+  if (idxs cls).any (fun (c, (p, _, _)) => match p with | some q => decide (c ≤ q) | none => false) then none
+  if reqs.any (fun c => decide (cls.length ≤ c)) then none
+  let cs : Preview.Classes :=
+    { parent := fun c => match cls[c]? with | some (p, _, _) => p | none => none,
+      ownFn := fun c => match cls[c]? with | some (_, f, _) => f | none => none,
+      declared := fun c => match cls[c]? with | some (_, _, d) => d | none => none,
+      scrape := fun f => match fns.find? (fun x => x.1 == f) with | some (_, l) => l | none => [],
+      rootFn := 0 }
+  some (variant, cs, cls.length, reqs)
+
 structure DS where
   cfg : Cfg
   dfn : Option Node
@@ -164,6 +205,7 @@ def flatOuts (n : Node) (σ : St) : Nat → Val :=
   fun o => (r.2 o).eval env
 
 def doRun (s : DS) (n : Node) (σ : St) : DS × List String :=
+  if refused n σ then ({ s with st := some σ }, ["run refused", "st " ++ showSt n σ]) else
   match run n σ with
   | none => ({ s with dead := true }, ["run fail"])
   | some σ' =>
@@ -244,6 +286,14 @@ def step (s : DS) (ws : List String) : DS × List String :=
         let σ' := (setOutAt n σ p o ((σ.atPath p).get .out o)).1
         ({ s with st := some σ' }, ["st " ++ showSt n σ'])
     | _, _ => (s, ["bad-op"])
+  | "pv" :: rest =>
+    -- per-class preview: pv <variant> <ncls> (<parent|-> <fn|-> <declared: - | n l*>)* <nfn> (<f> <n> l*)* <nreq> c*
+    match pPreview rest with
+    | some (variant, cs, ncls, reqs) =>
+      let get := if variant = 1 then Preview.getRepaired cs ncls else Preview.getPinned cs ncls
+      let out := Preview.runReqs get Preview.Cache.empty reqs
+      (s, ["pv " ++ ";".intercalate (out.map showNats)])
+    | none => (s, ["bad-op"])
   | ["run"] => live s fun n σ => doRun s n σ
   | "call" :: rest =>
     match pCounted pKw rest with
